@@ -190,6 +190,11 @@ def apply_op(c, model, op, kind):
             if not names:
                 return "update_key-skip", None
             k = names[op["i"] % len(names)]
+            # precondition by construction: the names the bulk update gives a meaning to (session_id, origin_host) are only handed
+            # to an AVP of that kind - calling a Host-IP-Address "session_id_avp" and then bulk-updating it is caller error
+            want_cls = {"session_id_avp": "SessionIdAVP", "origin_host_avp": "OriginHostAVP", "origin_host_avp__1": "OriginHostAVP"}.get(op["new"])
+            if want_cls and type(names_of(c)[k]).__name__ != want_cls:
+                return "update_key-skip-reserved-name", None
             c.update_key(k, op["new"])
         elif name == "update_avps":
             if kind == "grouped":
